@@ -205,6 +205,7 @@ def run(prog, rep, tier, cfg):
     X.accumulator_integrity('K12', 'running-totals', ['fil_actor_miner'], 'running totals of amounts')
     X.no_dropped_results('K14', 'results-not-discarded', ['fil_actor_miner'], 'no Result of a call is discarded')
     X.tolerated_failures('K15', 'tolerated-failures', ['fil_actor_miner'], 'tolerated failures are the reviewed ones')
+    X.write_sites_preserved('K16', 'updates-present', 'fil_actor_miner', ['State.allocated_sectors', 'Partition.sectors', 'Partition.unproven', 'Partition.faults', 'Partition.recoveries', 'Partition.terminated', 'Partition.expirations_epochs', 'Partition.early_terminated', 'Deadline.live_sectors', 'Deadline.total_sectors', 'Deadline.daily_fee', 'Deadline.expirations_epochs', 'Deadline.partitions', 'ExpirationSet.on_time_sectors', 'ExpirationSet.early_sectors', 'ExpirationSet.on_time_pledge', 'ExpirationSet.active_power', 'ExpirationSet.faulty_power', 'ExpirationSet.fee_deduction'], 'state updates do not disappear')
 
 
 def _upvar_of(f, op, depth=0):
